@@ -140,9 +140,10 @@ def gen(rng, d=0, jsonmode=True):
             return [gen_scalar(rng, w) for _ in range(n)]
         return [gen(rng, d + 1, jsonmode) for _ in range(min(n, 6))]
     keys = ["k%d" % i if rng.random() < 0.7 else "key_%s" % ("z" * rng.randint(1, 9)) + str(i)
-            for i in range(min(n, 40))]
+            for i in range(min(n, 40 if rng.random() < 0.6 else 100))]
     if not jsonmode and rng.random() < 0.4:
-        keys = keys[:3] + [7, 3, 100, -2, 10 ** 12][:rng.randint(1, 5)]
+        # (a big dict keeps all its string keys next to the others)
+        keys = (keys if len(keys) > 64 else keys[:3]) + [7, 3, 100, -2, 10 ** 12][:rng.randint(1, 5)]
         if rng.random() < 0.3:
             # neighbouring ints beyond what a float can tell apart (ids, timestamps in nanoseconds)
             base = rng.choice([2 ** 53, 2 ** 63, 10 ** 18 * 9, 2 ** 64])
@@ -468,8 +469,15 @@ def deep_nesting_case(ctx, depth):
     the value (the literal evaluator of python refuses such texts by itself: only JSON mode is driven)"""
     ctx.evaluated()
     value = []
+    # (between 60 and 100 levels below the top some levels also hold a list of twenty codes of one width - what is
+    # left of the line there is narrower than one of them)
+    uniform = ["code-%02d" % i + "x" * (depth % 15) for i in range(20)]
+    marks = {depth - 1 - lvl for lvl in (58, 63, 66, 70, 75, 77, 84, 99)}
     for k in range(depth):
-        value = [value, k] if k % 3 else {"next": value, "n": k}
+        if k % 3:
+            value = [value, k] + ([list(uniform)] if k in marks else [])
+        else:
+            value = dict({"next": value, "n": k}, **({"u": list(uniform)} if k in marks else {}))
     case = {"json_mode": True, "deep_nesting": depth}
     try:
         text = str(PrettyPrinter(fmt_json=True)(value, no_color=True))
@@ -488,11 +496,11 @@ def deep_nesting_case(ctx, depth):
         if type(a) is not type(b) or len(a) != len(b):
             break
         if isinstance(a, list) and a:
-            if a[1] != b[1]:
+            if a[1:] != b[1:]:
                 break
             a, b = a[0], b[0]
         elif isinstance(a, dict):
-            if a["n"] != b.get("n") or list(b) != ["n", "next"]:
+            if a["n"] != b.get("n") or list(b) != sorted(a) or a.get("u") != b.get("u"):
                 break
             a, b = a["next"], b["next"]
         else:
